@@ -760,7 +760,8 @@ def suite(ctx: Ctx, on: list[str], n_random_progs: int, n_sim: int, n_random_his
             stats["hung_impl"] += 1
         if m.get("stale_key") and (why.startswith("determ:") or why.startswith("errors:raised-error-not-produced")):
             key = m["stale_key"]
-        if (why.startswith("nohang:returned-with-") or why.startswith("callgraph:")) and m["pi"] in orphandev:
+        if (why.startswith("nohang:returned-with-") or why.startswith("callgraph:")
+                or why == "limits:units-not-returned") and m["pi"] in orphandev:
             # explained by the as-built model: a caught failure abandons the jobs still running beneath the failed job
             key = "caught-failure-leaves-job-running"
         if why.startswith("callgraph:") and m["pi"] in forkdev:
